@@ -50,21 +50,29 @@ package keeper
 //@   decreases len(minters) - \i
 //@
 //@ // ---- bank wrappers ----
+//@ // x/bank never stores a negative balance (assumed bank invariant, stated where it is needed)
+//@ pred balNonNeg(a) = forall d: str :: {$bal[a][d]} $bal[a][d] >= 0
 //@ func (k Keeper) MintCoins(ctx, newCoins) (err)
 //@   modifies $bal, $supply
 //@   ensures err != nil ==> $bal == old($bal) && $supply == old($supply)
 //@   ensures err == nil ==> (forall d: str :: {$supply[d]} $supply[d] == old($supply[d]) + newCoins[d])
 //@   ensures err == nil ==> (forall d: str :: {$bal[modaddr("cfeminter")][d]} $bal[modaddr("cfeminter")][d] == old($bal[modaddr("cfeminter")][d]) + newCoins[d])
 //@   ensures forall a: str :: {$bal[a]} a != modaddr("cfeminter") ==> $bal[a] == old($bal[a])
+//@   // minting a non-negative amount cannot fail, and the module account's balance was not negative (C10: no error to panic on)
+//@   ensures (forall d: str :: {newCoins[d]} newCoins[d] >= 0) ==> err == nil
 //@   prop C01 C10
 //@ func (k Keeper) SendMintedCoins(ctx, fees) (err)
 //@   requires modaddr(k.collectorName) != modaddr("cfeminter")
-//@   modifies $bal
+//@   panic_requires moduleExists(k.collectorName)
+//@   modifies $bal, $accTag, $accSeq, $accPub
+//@   ensures existingAccountsUntouched()
 //@   ensures err != nil ==> $bal == old($bal)
 //@   ensures err == nil ==> (forall d: str :: {$bal[modaddr("cfeminter")][d]} $bal[modaddr("cfeminter")][d] == old($bal[modaddr("cfeminter")][d]) - fees[d])
 //@   ensures err == nil ==>
 //@     (forall d: str :: {$bal[modaddr(k.collectorName)][d]} $bal[modaddr(k.collectorName)][d] == old($bal[modaddr(k.collectorName)][d]) + fees[d])
 //@   ensures forall a: str :: {$bal[a]} a != modaddr("cfeminter") && a != modaddr(k.collectorName) ==> $bal[a] == old($bal[a])
+//@   // forwarding what the module account holds cannot fail (module accounts hold no locked coins)
+//@   ensures (forall d: str :: {fees[d]} fees[d] >= 0 && old($bal[modaddr("cfeminter")][d]) >= fees[d]) ==> err == nil
 //@   prop C01 C10
 //@
 //@ // ---- the emission step ----
@@ -87,11 +95,14 @@ package keeper
 //@ // carry with which period j was entered, read from the live state or from the history
 //@ spec func carryIn(j) int = $minterState.SequenceId == j ? $minterState.RemainderFromPreviousMinter : $histRemFrom[j]
 //@
+//@ spec func E47() int = 100000000000000000000000000000000000000000000000
+//@ pred saneMinters(ms) = forall i: int :: {ms[i]} 0 <= i && i < len(ms) ==> saneMinter(ms[i])
 //@ func (k Keeper) mint(ctx, params, level) (res, err)
 //@   requires params != nil && validMinters(params.Minters, params.StartTime) && timeOK($blockTime)
 //@   requires J(params, $minterState, $blockTime)
 //@   requires modaddr(k.collectorName) != modaddr("cfeminter")
-//@   requires 0 <= level && level <= $minterState.SequenceId
+//@   requires 0 <= level && level <= $minterState.SequenceId && balNonNeg(modaddr("cfeminter"))
+//@   panic_requires saneMinters(params.Minters) && validDenom(params.MintDenom) && moduleExists(k.collectorName)
 //@   // the cumulative amount never runs ahead of the schedule (established by Mint from monotonicity)
 //@   requires $minterState.AmountMinted <= truncInt(schedNow(params, $minterState, $blockTime))
 //@   uses let m = cur(params, $minterState.SequenceId) in let s = startOf(params, $minterState.SequenceId) in
@@ -100,9 +111,13 @@ package keeper
 //@   uses let m = cur(params, $minterState.SequenceId) in let m2 = cur(params, $minterState.SequenceId + 1) in
 //@     linSchedNonNeg(linCfg(m2).Amount, *m.EndTime, *m2.EndTime, $blockTime)
 //@     && expSchedNonNeg(expCfg(m2).Amount, expCfg(m2).AmountMultiplier, expCfg(m2).StepDuration, *m.EndTime, *m2.EndTime, m2.EndTime != nil, $blockTime)
-//@   modifies $minterState, $histPresent, $histMinted, $histRemFrom, $histRemTo, $bal, $supply
+//@   modifies $minterState, $histPresent, $histMinted, $histRemFrom, $histRemTo, $bal, $supply, $accTag, $accSeq, $accPub
 //@   decreases params.Minters[0].SequenceId + len(params.Minters) - $minterState.SequenceId
-//@   ensures !res.IsNil() && res >= 0
+//@   ensures !res.IsNil() && res >= 0 && existingAccountsUntouched()
+//@   // C10: with the current period present (J) nothing in the emission step can fail, so BeginBlocker has no error to panic on
+//@   ensures [no-error] err == nil
+//@   // magnitude (C10): each remaining period contributes at most 10^47, so the sum of the recursion stays far below 2^256
+//@   ensures saneMinters(params.Minters) ==> res <= (params.Minters[0].SequenceId + len(params.Minters) - old($minterState.SequenceId)) * E47()
 //@   ensures err == nil ==> $supply[params.MintDenom] == old($supply[params.MintDenom]) + res
 //@   ensures forall d: str :: {$supply[d]} d != params.MintDenom ==> $supply[d] == old($supply[d])
 //@   ensures err == nil ==> J(params, $minterState, $blockTime) && $minterState.SequenceId >= old($minterState.SequenceId)
@@ -138,14 +153,16 @@ package keeper
 //@
 //@ func (k Keeper) Mint(ctx) (res, err)
 //@   requires validMinters($minterParams.Minters, $minterParams.StartTime) && timeOK($blockTime)
-//@   requires Jstore($minterParams, $minterState)
+//@   requires Jstore($minterParams, $minterState) && balNonNeg(modaddr("cfeminter"))
 //@   requires modaddr(k.collectorName) != modaddr("cfeminter")
+//@   panic_requires saneMinters($minterParams.Minters) && validDenom($minterParams.MintDenom) && moduleExists(k.collectorName)
 //@   uses let m = cur($minterParams, $minterState.SequenceId) in let s = startOf($minterParams, $minterState.SequenceId) in
 //@     let t0 = max($minterState.LastMintBlockTime, s) in
 //@     linSchedMono(linCfg(m).Amount, s, *m.EndTime, t0, $blockTime)
 //@     && expSchedMono(expCfg(m).Amount, expCfg(m).AmountMultiplier, expCfg(m).StepDuration, s, *m.EndTime, m.EndTime != nil, t0, $blockTime)
-//@   modifies $minterState, $histPresent, $histMinted, $histRemFrom, $histRemTo, $bal, $supply
-//@   ensures !res.IsNil() && res >= 0
+//@   modifies $minterState, $histPresent, $histMinted, $histRemFrom, $histRemTo, $bal, $supply, $accTag, $accSeq, $accPub
+//@   ensures !res.IsNil() && res >= 0 && existingAccountsUntouched()
+//@   ensures [no-error] err == nil
 //@   ensures err == nil && $blockTime >= $minterParams.StartTime && old($minterState.LastMintBlockTime) < $blockTime ==>
 //@     $minterState.AmountMinted == truncInt(schedNow($minterParams, $minterState, $blockTime)) && $minterState.LastMintBlockTime == $blockTime
 //@     && (cur($minterParams, $minterState.SequenceId).EndTime == nil || $blockTime < *cur($minterParams, $minterState.SequenceId).EndTime)
@@ -166,10 +183,11 @@ package keeper
 //@ func (k Keeper) GetCurrentInflation(ctx) (res, err)
 //@   requires validMinters($minterParams.Minters, $minterParams.StartTime) && timeOK($blockTime)
 //@   requires !$minterState.AmountMinted.IsNil()
+//@   panic_requires saneMinters($minterParams.Minters)
 //@   ensures !hasMinter($minterParams, $minterState.SequenceId) ==> err != nil
 //@   ensures hasMinter($minterParams, $minterState.SequenceId) ==> err == nil && !res.IsNil()
 //@     && res == infl(cur($minterParams, $minterState.SequenceId), startOf($minterParams, $minterState.SequenceId), $blockTime, $supply[$minterParams.MintDenom])
-//@   prop C19 C20x
+//@   prop C19 C10
 //@ func (k Keeper) Inflation(goCtx, req) (resp, err)
 //@   requires validMinters($minterParams.Minters, $minterParams.StartTime) && timeOK($blockTime)
 //@   requires !$minterState.AmountMinted.IsNil()
